@@ -205,6 +205,13 @@ Definition arena_dup (mok : Z -> bool) (a : arena) (data : list Z) (null_termina
     | (None, a') => (None, a')
     end.
 
+(* Arena::sformat(fmt, ...): vsnprintf into char buf[512] limited to 511 bytes (at most 510 characters and the terminator), then
+   dup(buf, length + 1). `text` is what the format expands to. Model = code with fixes/C18-arena-sformat-overflow.patch: the
+   length used after vsnprintf is the number of characters really stored (the pinned code used vsnprintf's return value, the
+   length the complete output would have, as an index into the 512-byte buffer). *)
+Definition arena_sformat (mok : Z -> bool) (a : arena) (text : list Z) : option (addr * list Z) * arena :=
+  arena_dup mok a (firstn 510 text ++ [0]) false.
+
 (* ArenaString<N>::set_data: embedded when the size is at most max_embedded, else Arena::dup(.., true) *)
 Definition arena_string_set (mok : Z -> bool) (a : arena) (max_embedded : Z) (data : list Z) : option (option addr * list Z) * arena :=
   let size := Z.of_nat (length data) in
